@@ -5,6 +5,7 @@ import Lean.Data.Json
 import PypyrModel.Json
 import PypyrModel.Fmt
 import PypyrModel.FmtHeap
+import PypyrModel.FmtRoute
 import PypyrModel.Heap
 
 /-! ## run heap (C12) -/
@@ -73,6 +74,7 @@ def refToJson (x : Ref) : Json :=
 def segOfJson (j : Json) : Except String Seg :=
   match j with
   | .str k => pure (.key k)
+  | .obj _ => do pure (.attr (← (← j.getObjVal? "attr").getStr?))
   | _ => do pure (.idx (← jsonNat? j))
 
 def pathOfJson (j : Json) : Except String Path := do
@@ -122,6 +124,7 @@ def blockToJson (b : Block) : Json := Json.arr (b.map bcellToJson).toArray
 def segToJson : Seg → Json
   | .key k => Json.str k
   | .idx i => natJ i
+  | .attr k => Json.mkObj [("attr", Json.str k)]
 
 def pathToJson (p : Path) : Json := Json.arr (p.map segToJson).toArray
 
@@ -485,6 +488,22 @@ def handle (op : String) (j : Json) : Except String Json := do
       if !keysHashable r then throw "out of domain: result has an unhashable key or set member"
       pure (Json.mkObj ([("ok", r.toJson), ("resBraceFree", Json.bool (braceFree r)),
                          ("resWf", Json.bool (wfVal r))] ++ inPreds))
+  | "fmtRoute" =>
+    -- {tags: {passthrough, special, str, bytes, mapping, sequence, set : bool}} → the branch of the routing table
+    let tj ← j.getObjVal? "tags"
+    let b := fun (k : String) => do (← tj.getObjVal? k).getBool?
+    let t1 ← b "passthrough"
+    let t2 ← b "special"
+    let t3 ← b "str"
+    let t4 ← b "bytes"
+    let t5 ← b "mapping"
+    let t6 ← b "sequence"
+    let t7 ← b "set"
+    let t : Pypyr.FmtRoute.Tags := ⟨t1, t2, t3, t4, t5, t6, t7⟩
+    let name := match Pypyr.FmtRoute.route t with
+      | .passthrough => "passthrough" | .special => "special" | .format => "format" | .bytesLeaf => "bytesLeaf"
+      | .mapping => "mapping" | .iterable => "iterable" | .leaf => "leaf"
+    pure (Json.mkObj [("branch", Json.str name)])
   | _ =>
     if op.startsWith "run" then Pypyr.OpRunHeap.handle op j else .error s!"unknown op {op}"
 
